@@ -245,6 +245,8 @@ def _sig(sim):
 
 class C19:
     prop = "C19"
+    state_measure = ("abstraction sampled at every scheduler decision: the non-zero cells of the shared lock array x per live task "
+                     "(task id, kind of thing it is blocked on); hashed; distinct values counted")
     level = "exploration"
     design_ref = "DESIGN.md 3.9"
     tiers = {"quick": {"runs": 16000, "budget_s": 80, "chunk": 80, "twice_every": 20, "shrink_s": 40},
